@@ -342,6 +342,12 @@ func (state inSession) processReject(session *session, msg *Message, rej Message
 			return handleStateError(session, err)
 		}
 
+		// A rejected message that is out of sequence (Logout, ResendRequest and SequenceReset are looked at
+		// whatever their number) does not use up the expected number: that one is still to come.
+		if seqNum, err := msg.Header.GetInt(tagMsgSeqNum); err == nil && seqNum != session.store.NextTargetMsgSeqNum() {
+			return state
+		}
+
 		if err := session.store.IncrNextTargetMsgSeqNum(); err != nil {
 			return handleStateError(session, err)
 		}
